@@ -151,7 +151,17 @@ def lemmas(reg):
                                             VAL(e, l) <= cobs(e, l) + VAL(e - 1, m) + ctr(e - 1, m, l)))
     cand = lambda k: z3.And(0 <= pth(k), pth(k) < nst(k))
     defs = [cost(0) == cobs(0, pth(0)), cost(e + 1) == cost(e) + ctr(e, pth(e), pth(e + 1)) + cobs(e + 1, pth(e + 1))]
-    return [("sequence-lower-bound:base", [row0_, cand(0)] + defs, cost(0) >= VAL(0, pth(0))),
+    # a model given directly by log-likelihoods g = log(f + 1e-300) (self.log = True) has the same costs as the model given by
+    # the likelihoods f (self.log = False): the contracts of the decoding regions mention the model only through these costs,
+    # so both runs certify the same optimum
+    a_, b_, k_, t_ = z3.Ints("a!h b!h k!h t!h")
+    QG, PG = z3.Function("hmm_Qlog!h", I_, I_, I_, I_, R_), z3.Function("hmm_Plog!h", I_, I_, I_, I_, R_)
+    eps = z3.RealVal("1e-300")
+    same_costs = [("log-likelihoods-give-the-same-costs:transition", [QG(a_, b_, k_, t_) == mathlib.LOG(QF(a_, b_, k_, t_) + eps)],
+                   z_cost(QF, z3.BoolVal(False), a_, b_, k_, t_) == z_cost(QG, z3.BoolVal(True), a_, b_, k_, t_)),
+                  ("log-likelihoods-give-the-same-costs:observation", [PG(a_, b_, k_, t_) == mathlib.LOG(PF(a_, b_, k_, t_) + eps)],
+                   z_cost(PF, z3.BoolVal(False), a_, b_, k_, t_) == z_cost(PG, z3.BoolVal(True), a_, b_, k_, t_))]
+    return same_costs + [("sequence-lower-bound:base", [row0_, cand(0)] + defs, cost(0) >= VAL(0, pth(0))),
             ("sequence-lower-bound:step", [lower, 0 <= e, e + 1 < N, cand(e), cand(e + 1), cost(e) >= VAL(e, pth(e))] + defs,
              cost(e + 1) >= VAL(e + 1, pth(e + 1)))]
 
@@ -161,5 +171,7 @@ ASSUMPTIONS = ["HMM.estimate: only the forward and backward regions are under co
                "and storing hmm_inference / hmm_cost in the track are bounded only",
                "self.Q / self.P are abstract functions of (s1, s2, k, track) / (s, y, k, track); in non-log mode their values + 1e-300 are positive",
                "ASSUMED (not proved): every accumulated cost stays below the sentinel 1e300 used to initialise best_val",
-               "minimum total -log cost <=> maximum product likelihood is not proved here (log additive and monotone): bounded only",
+               "minimum total -log cost <=> maximum product likelihood is not proved here (log additive and monotone): bounded only; "
+               "lemma log-likelihoods-give-the-same-costs: a model supplied as logarithms g = log(f + 1e-300) has the same cost function as the "
+               "model supplied as likelihoods f, hence the same certificate and optimum",
                "numpy.argmin: first index of a minimum of a non-NaN list (trusted model)"]
